@@ -76,7 +76,7 @@ def streams(ctx):
         byi = {}
         for (start, end, ip, vset, tag, i) in metas:
             o = impl[end]
-            if o.startswith("E:") or o in ("PANIC", "ABORT"):
+            if o.startswith("E:") or o.startswith(("PANIC", "ABORT")):
                 der.append({"req": vlib.line("latest.pure", "T", "-"), "expect": "<no error expected: " + o + ">", "kind": "model", "index": end})
                 continue
             l, t, rows = parse_rows(o)
